@@ -2450,6 +2450,10 @@ class ProvDocument(ProvBundle):
         bundle._namespaces.parent = self._namespaces
 
         valid_id = bundle.valid_qualified_name(identifier)
+        if valid_id is None:
+            raise ProvException(
+                'The provided identifier "%s" is not valid' % identifier
+            )
         # IMPORTANT: Rewriting the bundle identifier for consistency
         bundle._identifier = valid_id
 
